@@ -283,8 +283,9 @@ fn seg_builder_finalize_contract() {
 // ------------------------------------------------------------------ ownership conservation (C04): drop-tracked payloads,
 // the cache is dropped at the end and CBMC's memory-leak check is on (unit K-LEAK)
 
+// tier: thorough (dropping whole composite caches with tracked payloads is expensive for CBMC)
 #[kani::proof]
-#[kani::unwind(34)]
+#[kani::unwind(14)]
 fn seg_put_leakcheck() {
     use crate::verif_hooks::gen::*;
     let pb = any_tracked_abs(N, 1);
@@ -295,7 +296,7 @@ fn seg_put_leakcheck() {
     let k: u8 = kani::any();
     let v: u8 = kani::any();
     let which: u8 = kani::any();
-    kani::assume(k < 16 && v >= 16 && v < 32 && which < 2);
+    kani::assume(k < 6 && v >= 6 && v < 12 && which < 2);
     let before = ids_of(&[&pb, &pt]);
     kani::assume(before & (1 << v) == 0);
     let hit = pb.has(k) || pt.has(k);
